@@ -19,9 +19,9 @@ suite=$(go test -vet=off -count=1 ./... 2>&1 | grep -v "no test files" | tail -8
 suite_ok=$(echo "$suite" | grep -c "^FAIL\|^---")
 for d in $demos; do mv /tmp/seed-aside-$$/$(echo $d | tr / _) $d; done; rmdir /tmp/seed-aside-$$
 demo_with=$(go test -vet=off -count=1 -run TestSeedDemo ./... 2>&1 | grep -E "^(ok|FAIL|---|panic)" | head -5)
-git stash push -q -- $(git diff --name-only -- . ':!*_test.go')
+git apply -R $out/patch.diff
 demo_without=$(go test -vet=off -count=1 -run TestSeedDemo ./... 2>&1 | grep -E "^(ok|FAIL|---|panic)" | head -5)
-git stash pop -q
+git apply $out/patch.diff
 # run the checks on /repo with the patch applied
 res=""
 if git -C /repo apply --check $out/patch.diff 2>/dev/null; then
